@@ -6,11 +6,16 @@
 package fdo
 
 import (
+	"bytes"
+	"context"
+	"io"
 	"reflect"
 
 	"github.com/fido-device-onboard/go-fdo/cbor"
 	"github.com/fido-device-onboard/go-fdo/cose"
+	"github.com/fido-device-onboard/go-fdo/kex"
 	"github.com/fido-device-onboard/go-fdo/protocol"
+	"github.com/fido-device-onboard/go-fdo/serviceinfo"
 )
 
 // VerifWireTypes lists the Go types of every message body and signed or
@@ -48,4 +53,50 @@ func VerifWireTypes() map[string]reflect.Type {
 		"VoucherEntryPayload":        t(VoucherEntryPayload{}),
 		"DeviceCredential":           t(DeviceCredential{}),
 	}
+}
+
+// verifRecorder is a Transport that records every TO2.DeviceServiceInfo
+// message and answers with an empty TO2.OwnerServiceInfo.
+type verifRecorder struct {
+	msgs []deviceServiceInfo
+}
+
+func (t *verifRecorder) Send(_ context.Context, _ uint8, msg any, _ kex.Session) (uint8, io.ReadCloser, error) {
+	if m, ok := msg.(deviceServiceInfo); ok {
+		t.msgs = append(t.msgs, m)
+	}
+	var buf bytes.Buffer
+	if err := cbor.NewEncoder(&buf).Encode(ownerServiceInfo{}); err != nil {
+		return 0, nil, err
+	}
+	return protocol.TO2OwnerServiceInfoMsgType, io.NopCloser(&buf), nil
+}
+
+// VerifServiceInfoMessage is one recorded TO2.DeviceServiceInfo.
+type VerifServiceInfoMessage struct {
+	IsMore bool
+	KVs    []*serviceinfo.KV
+}
+
+// VerifServiceInfoRounds runs exchangeServiceInfoRound n times against a
+// recording transport and returns the messages the device would have sent.
+func VerifServiceInfoRounds(ctx context.Context, mtu uint16, r *serviceinfo.ChunkReader, n int) ([]VerifServiceInfoMessage, error) {
+	rec := &verifRecorder{}
+	unchunk, w := serviceinfo.NewChunkInPipe(1000)
+	_ = unchunk
+	defer func() { _ = w.Close() }()
+	for i := 0; i < n; i++ {
+		if _, _, err := exchangeServiceInfoRound(ctx, rec, mtu, r, w, nil); err != nil {
+			return toVerifMsgs(rec.msgs), err
+		}
+	}
+	return toVerifMsgs(rec.msgs), nil
+}
+
+func toVerifMsgs(in []deviceServiceInfo) []VerifServiceInfoMessage {
+	out := make([]VerifServiceInfoMessage, len(in))
+	for i, m := range in {
+		out[i] = VerifServiceInfoMessage{IsMore: m.IsMoreServiceInfo, KVs: m.ServiceInfo}
+	}
+	return out
 }
